@@ -47,6 +47,10 @@ class UserKeyError(UserExc, KeyError):
     """a KeyError raised by a node FUNCTION"""
 
 
+class UserAttributeError(UserExc, AttributeError):
+    """an AttributeError raised by a node FUNCTION: the library suppresses AttributeError in several of its own look-ups"""
+
+
 def lin(tag, k, args):
     CALLS.append((tag, list(args)))
     if tag in FAIL:
@@ -194,6 +198,8 @@ def chk(tag, k, args):
         raise UserIndexError(tag)    # ... or a builtin exception type the library's own loops also catch
     if any(a == -9 for a in args):
         raise UserKeyError(tag)
+    if any(a == -5 for a in args):
+        raise UserAttributeError(tag)
     if KI_ENABLED and any(a == -6 for a in args):
         raise UserInterrupt(tag)     # Ctrl-C landing inside the body
     if any(a < 0 for a in args):
